@@ -12,6 +12,7 @@
 # See the License for the specific language governing permissions and
 # limitations under the License.
 
+import re
 from functools import cached_property
 from pathlib import PurePosixPath
 
@@ -72,7 +73,9 @@ class CppCliBaseCommentModel(BaseModel):
     def deprecated(self):
         message = ""
         if isinstance(self.decl.deprecated, str):
-            message = '("' + self.decl.deprecated.replace('\\', r'\\').replace('\n', r'\n').replace('"', r'\"') + '")'
+            # characters that str.splitlines() treats as line breaks must not reach the literal (the indent filter would break it)
+            text = re.sub('[\r\x0b\x0c\x1c\x1d\x1e\x85\u2028\u2029]', ' ', self.decl.deprecated)
+            message = '("' + text.replace('\\', r'\\').replace('\n', r'\n').replace('"', r'\"') + '")'
         return f"[System::Obsolete{message}]"
 
 
